@@ -180,6 +180,25 @@ def constructors(ctx) -> None:
         order = [e.attr for e in t.elts] if isinstance(t, ast.Tuple) else []
         vv = fv.res.resolve(v, n.id)
         ok = order == ["dr", "dc"] and isinstance(vv, ast.Subscript) and (attr_of_name(vv.value, selfn, "indices_B") or call_fname(vv.value) == "make_well_index_dict") and is_name(vv.slice, "shifted_A01")
+    if not ok and "dr" in attrs and "dc" in attrs:
+        # the same offset taken apart by index:  offset = indices_B[shifted_A01]; dr = offset[0]; dc = offset[1]
+        def anchor(vv):
+            return isinstance(vv, ast.Subscript) and (attr_of_name(vv.value, selfn, "indices_B") or call_fname(vv.value) == "make_well_index_dict") and is_name(vv.slice, "shifted_A01")
+
+        def component(a):
+            n_, v_, t_ = attrs[a]
+            if isinstance(t_, ast.Tuple):
+                return None
+            vv_ = fv.res.resolve(v_, n_.id)
+            if is_sym(vv_, "item") or is_sym(vv_, "unpack"):
+                base, k_ = vv_.args[0], vv_.args[1]
+            elif isinstance(vv_, ast.Subscript):
+                base, k_ = vv_.value, vv_.slice
+            else:
+                return None
+            return k_.value if isinstance(k_, ast.Constant) and anchor(base) else None
+
+        ok = component("dr") == 0 and component("dc") == 1 and not isinstance(component("dr"), bool)
     ctx.rep.check(ok, rule, f"{f.qualname}/offset", "(dr, dc) = indices_B[shifted_A01]", "the shift offset is not (dr, dc) = indices_B[<anchor well>]", where=f.where())
     # WellRotator.__init__
     g = ctx.prog.require_func("WellRotator.__init__", rule)
@@ -534,6 +553,11 @@ def randomizer(ctx) -> None:
         g = dc.generators[0]
         ok_r = isinstance(g.iter, ast.Call) and call_fname(g.iter) == "items" and attr_of_name(g.iter.func.value, selfn, "lookup") and isinstance(g.target, ast.Tuple) and len(g.target.elts) == 2 \
             and is_name(dc.key, g.target.elts[1].id) and is_name(dc.value, g.target.elts[0].id) and not g.ifs
+        if not ok_r and isinstance(g.target, ast.Name) and not g.ifs and len(dc.generators) == 1:
+            # {self.lookup[k]: k for k in self.lookup}  (or  in self.lookup.keys())
+            src_ = g.iter.func.value if isinstance(g.iter, ast.Call) and call_fname(g.iter) == "keys" and isinstance(g.iter.func, ast.Attribute) and not g.iter.args else g.iter
+            ok_r = attr_of_name(src_, selfn, "lookup") and is_name(dc.value, g.target.id) and isinstance(dc.key, ast.Subscript) and attr_of_name(dc.key.value, selfn, "lookup") \
+                and is_name(dc.key.slice, g.target.id)
         ok_r = ok_r and fv.cfg.dominates(rev[0].id, fv.cfg.exit) and not fv.controlling(rev[0].id, skip_raising=True)
     if not ok_r and len(rev) == 1:
         # the same table built by a loop (or through a temporary): {<value of the pair>: <key of the pair> for the pairs of self.lookup.items()}
